@@ -13,10 +13,10 @@ use std::time::Duration;
 use vcore::refval::RefVal;
 use vcore::report::Report;
 
-const EVENTS: [&str; 28] = [
+const EVENTS: [&str; 29] = [
     "send->live", "send->dead", "send->never", "reg_send->registered", "reg_send->unknown", "exit->live", "monitor_exit->live", "rpc_reply",
     "unknown_control_99", "control_rejected_by_parser", "tick", "undecodable_body", "wrong_marker", "overlong_length", "premature_close", "close",
-    "silence_5s", "silence_9s", "silence_15s", "local:register_later", "reg_send->later", "send->crashed", "local:send_fails", "local:move_name", "local:register_taken_name", "send->live_in_node_local_form", "reg_send->latin1_name", "stall_mid_frame_25s",
+    "silence_5s", "silence_9s", "silence_15s", "local:register_later", "reg_send->later", "send->crashed", "local:send_fails", "local:move_name", "local:register_taken_name", "send->live_in_node_local_form", "reg_send->latin1_name", "stall_mid_frame_25s", "send->live_in_two_parts_3s_apart",
 ];
 
 fn execute(seq: &[usize], ctx: &WorkerCtx) -> ExecResult { execute_split(seq, None, ctx) }
@@ -117,6 +117,16 @@ fn execute_split(seq: &[usize], split: Option<usize>, ctx: &WorkerCtx) -> ExecRe
                     // (the reason is one of the atoms exit signals usually carry, by position in the sequence)
                     let reason = RefVal::atom(["boom", "killed", "noconnection", "noproc", "timeout", "normal", "shutdown", "kill", "nodedown"][(n as usize - 1) % 9]);
                     nw.peer.send(&pt(RefVal::Tuple(vec![RefVal::int(3), peer_pid(5), d1.clone(), reason.clone()]), None)); delivered = Some(("p1".into(), format!("exit:{}:{}", peer_pid(5), reason)));
+                }
+                "send->live_in_two_parts_3s_apart" => {
+                    // a slow link: the second half of the frame comes three seconds after the first (well inside the I/O timeout)
+                    let f = send_to(&d1, mark.clone());
+                    let cut = [5usize, f.len() / 2, f.len() - 1][(n as usize - 1) % 3];
+                    nw.peer.send(&f[..cut]);
+                    nw.w.settle(&mut nw.peer, &probe).await;
+                    for _ in 0..3 { tokio::time::advance(std::time::Duration::from_secs(1)).await; nw.w.settle(&mut nw.peer, &probe).await; }
+                    nw.peer.send(&f[cut..]);
+                    delivered = Some(("p1".into(), format!("msg:{}", mark)));
                 }
                 "stall_mid_frame_25s" => {
                     // half of a frame, then nothing for 25 s (the I/O timeout is 10 s), then the rest: the peer broke the framing's
